@@ -245,7 +245,9 @@ func (ex *Exec) binop(op token.Token, x, y *Term, mt mtype, where string) *Term 
 			}
 		}
 		r := ex.freshWord("and", mt)
-		ex.st.addFact(And(Le(r, x), Le(r, y)), where+":and")
+		one := IntI(1)
+		ex.st.addFact(And(Le(r, x), Le(r, y),
+			Implies(And(Le(x, one), Le(y, one)), Eq(Eq(r, one), And(Eq(x, one), Eq(y, one))))), where+":and")
 		return r
 	case token.OR:
 		if x.IsConst() && y.IsConst() {
